@@ -300,6 +300,14 @@ def check_case(case):
         for s in specs:
             edges.append(edges[-1] + A.dlen_of(s)[d])
         r.label('family:indep')
+    if case.get('vary_gattrs', True):
+        # every distinct input carries its own global attribute values: the
+        # result must carry the FIRST argument's
+        specs = [dict(s_, gattrs=dict(s_.get('gattrs') or {},
+                                      piece={'py': 'int', 'v': i},
+                                      title='piece %d' % i))
+                 for i, s_ in enumerate(specs)]
+        r.label('global-attrs-differ')
     order = case.get('order')
     uspecs = specs
     if order:
@@ -468,10 +476,9 @@ def judge(r, case, out, models, m0, d, edges, entry):
                               skip=('fill_value',))
             if msg:
                 r.fail('var-attrs', msg)
-    if not light:
-        msg = S.cmp_attrs(out, m0.gattrs, 'stacked file')
-        if msg:
-            r.fail('global-attrs', msg)
+    msg = S.cmp_attrs(out, m0.gattrs, 'stacked file')
+    if msg:
+        r.fail('global-attrs', msg, klass=entry)
     if r.failures or light:
         return
     # ---- (iii) slicing the stacked file at a piece's extent gives the piece
